@@ -11,11 +11,14 @@ CLAIMS["C09"] = dict(
           "under which test: override triples (guard, source, field) in aln_param_init, the full (sequence kind x type "
           "constant) table of both switches, the ordered --type dispatch chain evaluated on every documented word, the "
           "option-table/case/field agreement and by-name argument positions down to aln_param_init, and the documented DNA "
-          "numbers. This is the right level because the statement is about wiring, which is visible in the code's shape."),
+          "numbers; and the way from aln_param to the kernels: make_profile_n stores the negated penalty of the matching kind "
+          "into every gap column, set_gap_penalties_n copies each base column into the column of the same kind the kernels "
+          "read on every path to its return, and update_n charges in every branch the penalty kinds it counts, weighted by the "
+          "same group size. This is the right level because the statement is about wiring, which is visible in the code's shape."),
     note=("Does not decide end-to-end equality of an explicit-default and a default run on all inputs. Trusts clang's "
           "front end, the README's --type list as the documented API, and the convention negative = not given."),
     technique="AST/CFG rules: guard-source-target agreement, switch-table exhaustiveness, ordered-dispatch shadowing",
-    design_ref="DESIGN.md section 3, C09 (R09a-R09e)")
+    design_ref="DESIGN.md section 3, C09 (R09a-R09h)")
 
 CLAIMS["C05"] = dict(
     text=("Decides structural clauses that are necessary for memory safety and failure reporting, on every call site / "
@@ -163,14 +166,15 @@ CLAIMS["C16"] = dict(
     text=("Decides that there is no channel from one library call to the next: every file-scope variable and function-local "
           "static of the library is const or only assigned compile-time constants; kalign_run re-establishes the OpenMP "
           "thread count from its own parameter before anything that opens a parallel region; every constructor sets every "
-          "field that is read later (or a verified later phase does), so no stale heap is read; objects acquired into locals "
+          "field that is read later (or a verified later phase does), gap counters are zeroed over exactly the allocated count and "
+          "num_profiles changes only together with the arrays it counts, so no stale heap is read; objects acquired into locals "
           "by the API functions and their helpers are released or handed over on every CFG path to every exit (failure exits "
           "for the functions that own on failure; input-caused failure edges only); nothing reachable from any API function "
           "reads a clock, a random source, or pointer values as data."),
     note=("Does not decide allocator state / fragmentation effects; libgomp's thread pool is excluded by the statement. "
           "Failure edges that only an allocation failure or an argument precondition can take are outside the fault model."),
     technique="global/static write enumeration, constructor completeness, CFG typestate (acquire/release/hand-over), call-graph reachability",
-    design_ref="DESIGN.md section 3, C16 (R16a-R16e)")
+    design_ref="DESIGN.md section 3, C16 (R16a-R16f)")
 
 CLAIMS["C17"] = dict(
     text=("Decides two structural clauses: both alignments are sorted by the same (name, checksum) order before pairing, and "
